@@ -2,8 +2,10 @@ SPECIFICATION Spec
 CONSTANTS
   W = 2
   KeyList <- SK5
-  Vals = {1}
+  Vals = {1, 3}
   MaxOps = 4
+  AliasVal = 3
+  AliasKey <- AK
   HistOn = FALSE
 INVARIANTS StoredIsTarget DoneIffComplete RequestsSane Closed
 PROPERTIES Progress
